@@ -1,4 +1,11 @@
 import MpsProofs.Session
+import MpsProps.Src.SrcCmpKeygen
+import MpsProps.Src.SrcCmpSign
+import MpsProps.Src.SrcCmpPresign
+import MpsProps.Src.SrcFrostKeygen
+import MpsProps.Src.SrcFrostSign
+import MpsProps.Src.SrcDoernerKeygen
+import MpsProps.Src.SrcDoernerSign
 import MpsProps.HandlerSrc
 import MpsProofs.Handler
 import MpsGen.Session
